@@ -511,8 +511,58 @@ func c20Mutate(cs c20Case) (ok bool, sig, expected, observed string) {
 	return true, "", expected, o.String()
 }
 
+// c20TwoSites: one custom function called from two places of a template; the second call returns a value that cannot be
+// shown (as data it is an error): the error is that of the second call — same message, line and path as when the failing
+// call stands alone on that line.
+func c20TwoSites(cs c20Case) (ok bool, sig, expected, observed string) {
+	run := func(src string, failAt int) Outcome {
+		return guard(func() Outcome {
+			rt.ResetAll()
+			calls := 0
+			reg := func() error {
+				switch cs.Type {
+				case 0:
+					return textwire.RegisterArrFunc("twice", func(s []any, a ...any) []any {
+						calls++
+						if calls == failAt {
+							return []any{make(chan int)}
+						}
+						return []any{calls}
+					})
+				default:
+					return textwire.RegisterStrFunc("twice", func(s string, a ...any) string { calls++; return "s" })
+				}
+			}
+			if err := reg(); err != nil {
+				return Outcome{Kind: KErr, Msg: "registration failed: " + err.Error()}
+			}
+			out, e := textwire.EvaluateString(src, map[string]any{"x": []any{1}})
+			if e != nil {
+				return parseErr(e)
+			}
+			return Outcome{Kind: KOut, Out: out}
+		})
+	}
+	both := run("{{ x.twice() }}\n\n{{ [2].twice(1) }}", 2)
+	alone := run("ok\n\n{{ [2].twice(1) }}", 1)
+	expected = "the failing second call is reported like the same call standing alone: " + alone.String()
+	if both.Kind == KPanic || both.Kind == KHang {
+		return false, both.Kind + "@" + both.Site, expected, both.String()
+	}
+	if alone.Kind != KErr {
+		return true, "", "skipped", "" // the tree shows such a result: nothing to compare
+	}
+	if both.Kind != KErr || both.Msg != alone.Msg || both.Line != alone.Line || both.Path != alone.Path {
+		return false, "failing-call-reported-at-another-call-site", expected, both.String()
+	}
+	return true, "", expected, both.String()
+}
+
 func c20Check(cs c20Case) (bool, string, string, string) {
 	enterScratch()
+	if cs.Mode == "two-sites" {
+		return c20TwoSites(cs)
+	}
 	if cs.Mode == "mutate" {
 		return c20Mutate(cs)
 	}
@@ -590,6 +640,18 @@ func c20BFS(c *Ctx, depth int, wide bool) bool {
 
 func c20Conversions(c *Ctx) {
 	if c.Mine() {
+		cs := c20Case{Mode: "two-sites", Type: 0}
+		c.Trace(cs)
+		ok, sig, exp, obs := c20TwoSites(cs)
+		if exp != "skipped" {
+			c.Evals(1)
+			c.Case(true)
+			if !ok {
+				c.Report(sig, 9400000, cs, exp, obs, "")
+			}
+		}
+	}
+	if c.Mine() {
 		for t := 0; t < 4; t++ {
 			cs := c20Case{Mode: "mutate", Type: t}
 			c.Trace(cs)
@@ -660,7 +722,7 @@ func init() {
 	p := &Property{
 		ID:    "C20",
 		Level: "model_checking",
-		Rule:  "explicit-state breadth-first search over histories of {Register{Str,Arr,Int,Float,Bool}Func(name, variant A|B) for names f, len (thorough: g), Call(type, name, literal | variable receiver), Load templates (later calls go through Template.String)} from a fresh package state, deduplicated by the deep hash of the package-level registry (+ loaded flag), run in lock step with a reference registry map[type]map[name]variant: first registration wins, later ones fail and change nothing, types are independent, a built-in of the same name takes precedence, an unregistered name is an error naming the function and the receiver type; after every step the names in the implementation's registry are read out and compared with the model's (conformance binding). Plus the conversion product: every argument tuple of length <=2 from 15 values (nested arrays/objects) and every result value, recorded inside the custom function and compared with the expected Go natives; the printed result must equal printing the same Go value passed as data",
+		Rule:  "explicit-state breadth-first search over histories of {Register{Str,Arr,Int,Float,Bool}Func(name, variant A|B) for names f, len (thorough: g), Call(type, name, literal | variable receiver), Load templates (later calls go through Template.String)} from a fresh package state, deduplicated by the deep hash of the package-level registry (+ loaded flag), run in lock step with a reference registry map[type]map[name]variant: first registration wins, later ones fail and change nothing, types are independent, a built-in of the same name takes precedence, an unregistered name is an error naming the function and the receiver type; after every step the names in the implementation's registry are read out and compared with the model's (conformance binding). Plus the conversion product: every argument tuple of length <=2 from 15 values (nested arrays/objects) and every result value, recorded inside the custom function and compared with the expected Go natives; the printed result must equal printing the same Go value passed as data; one function called from two places whose second call returns a value that cannot be shown: the error is that of the second call",
 		Bounds: func(tier string) map[string]any {
 			if tier == "thorough" {
 				return map[string]any{"operations_3_names": len(c20Ops(true)), "history_depth_3_names": 4, "operations_2_names": len(c20Ops(false)), "history_depth_2_names": 5, "arg_values": len(c20ArgVals)}
